@@ -63,7 +63,7 @@ KANI_HARNESSES = {h: _k() for h in K_SUPPORT + K_C11_W + K_C11_R + K_PB + K_PB_M
 KANI_HARNESSES['bnd_pb_merge_repeated_packed'] = _k(kind='bounded', quick=False, bound='existing vector of 1 element; packed run of 1..=2 one-byte varints then one unpacked element; fixed32 packed run of 1', timeout=1500)
 KANI_HARNESSES['bnd_pb_map_len_btree+pbdef'] = dict(kind='bounded', quick=False, harness='bnd_pb_map_len_btree', args=['--features', 'pbdef'], bound='as bnd_pb_map_len_btree, pilota built with feature pb-encode-default-value')
 KANI_HARNESSES['bnd_pb_map_len_btree'] = _k(kind='bounded', bound='BTreeMap<u32,u32> with one entry, key/value < 128, tag 1..=15')
-for _h in ['pb_int64', 'pb_uint32', 'pb_uint64', 'pb_sint64', 'pb_int32']:
+for _h in ['pb_int64', 'pb_uint32', 'pb_uint64', 'pb_sint64']:   # pb_int32 (sign extension of negatives) stays in the quick tier
     KANI_HARNESSES[_h] = _k(quick=False)   # ~4 min each: thorough tier only
 KANI_HARNESSES['bnd_c11_w_bytes_le5'] = _k(kind='bounded', bound='payload length 0..=5, arbitrary content')
 
